@@ -52,6 +52,7 @@ namespace occa {
     dim_t lo = (mem->offset / alignment) * alignment; //Round down to alignment
     dim_t hi = ((mem->offset + mem->size + alignment - 1)
                 / alignment) * alignment; //Round up
+    udim_t uncovered = 0;
     for (modeMemory_t* m : reservations) {
       const dim_t mlo = (m->offset / alignment) * alignment;
       const dim_t mhi = ((m->offset + m->size + alignment - 1)
@@ -59,17 +60,15 @@ namespace occa {
       if (mlo >= hi) break;
       if (mhi <= lo) continue;
 
-      if (mlo <= lo && mhi >= hi) {
-        hi = lo;
-      } else {
-        hi = std::min(hi, mhi);
-        lo = std::max(lo, mlo);
-      }
+      /*[lo,mlo) is not covered by any other reservation, [mlo,mhi) is*/
+      if (mlo > lo) uncovered += mlo - lo;
+      lo = std::min(hi, mhi);
       if (lo == hi) break;
     }
+    uncovered += hi - lo;
     /*Add this mem to the reservation list*/
     reservations.emplace(mem);
-    reserved += hi-lo;
+    reserved += uncovered;
   }
 
   void modeMemoryPool_t::removeModeMemoryRef(modeMemory_t *mem) {
@@ -83,6 +82,7 @@ namespace occa {
     dim_t lo = (mem->offset / alignment) * alignment; //Round down to alignment
     dim_t hi = ((mem->offset + mem->size + alignment - 1)
                 / alignment) * alignment; //Round up
+    udim_t uncovered = 0;
     for (modeMemory_t* m : reservations) {
       const dim_t mlo = (m->offset / alignment) * alignment;
       const dim_t mhi = ((m->offset + m->size + alignment - 1)
@@ -90,15 +90,13 @@ namespace occa {
       if (mlo >= hi) break;
       if (mhi <= lo) continue;
 
-      if (mlo <= lo && mhi >= hi) {
-        hi = lo;
-      } else {
-        hi = std::min(hi, mhi);
-        lo = std::max(lo, mlo);
-      }
+      /*[lo,mlo) is not covered by any other reservation, [mlo,mhi) is*/
+      if (mlo > lo) uncovered += mlo - lo;
+      lo = std::min(hi, mhi);
       if (lo == hi) break;
     }
-    reserved -= hi-lo;
+    uncovered += hi - lo;
+    reserved -= uncovered;
   }
 
   modeBuffer_t* modeMemoryPool_t::makeOwnedBuffer() {
